@@ -566,21 +566,60 @@ func parseCliTree(out string) ([]CliLeaf, error) {
 	return leaves, nil
 }
 
-func protoText(s CliSpec) string {
-	p := &gpb.Path{}
-	for _, e := range s.Query {
-		p.Elem = append(p.Elem, &gpb.PathElem{Name: e})
+// reqEncodings: the spellings of one logical query (target, index path below
+// it) that only a request handed over as a proto can carry.  "" is what the
+// flag style builds (target in the prefix, the names as elem).
+var reqEncodings = []string{"path-el", "pre-el", "both-el", "pre-origin", "mixed"}
+
+func namesElem(q []string) []PElem {
+	el := make([]PElem, len(q))
+	for i, n := range q {
+		el[i] = PElem{Name: n}
 	}
-	sr := &gpb.SubscribeRequest{Request: &gpb.SubscribeRequest_Subscribe{Subscribe: &gpb.SubscriptionList{
-		Mode:         gpb.SubscriptionList_ONCE,
-		Prefix:       &gpb.Path{Target: s.Target},
-		Subscription: []*gpb.Subscription{{Path: p}},
-	}}}
-	return prototext.MarshalOptions{Multiline: false}.Format(sr)
+	return el
 }
 
-func runCli(ctx context.Context, bin, dir, addr string, idx int, s CliSpec, style string, files map[string]string, protos map[string]int) CliObs {
-	o := CliObs{Style: style, Spec: idx}
+// encodeQuery mirrors the model's encode_request.
+func encodeQuery(enc, target string, q []string) WireReq {
+	q = append([]string{}, q...)
+	canon := WireReq{Prefix: GPath{Target: target}, Path: GPath{Elem: namesElem(q)}}
+	if enc == "path-el" {
+		return WireReq{Prefix: GPath{Target: target}, Path: GPath{Element: q}}
+	}
+	if enc == "" || len(q) == 0 {
+		return canon
+	}
+	q0, rest := q[0], q[1:]
+	switch enc {
+	case "pre-el":
+		return WireReq{Prefix: GPath{Target: target, Element: []string{q0}}, Path: GPath{Elem: namesElem(rest)}}
+	case "both-el":
+		return WireReq{Prefix: GPath{Target: target, Element: []string{q0}}, Path: GPath{Element: rest}}
+	case "pre-origin":
+		return WireReq{Prefix: GPath{Target: target, Origin: q0}, Path: GPath{Elem: namesElem(rest)}}
+	case "mixed":
+		return WireReq{Prefix: GPath{Target: target, Elem: namesElem([]string{q0})}, Path: GPath{Element: rest}}
+	}
+	return canon
+}
+
+func protoText(s CliSpec, enc string) (string, WireReq) {
+	w := encodeQuery(enc, s.Target, s.Query)
+	p := w.Path.pb()
+	sr := &gpb.SubscribeRequest{Request: &gpb.SubscribeRequest_Subscribe{Subscribe: &gpb.SubscriptionList{
+		Mode:         gpb.SubscriptionList_ONCE,
+		Prefix:       w.Prefix.pb(),
+		Subscription: []*gpb.Subscription{{Path: p}},
+	}}}
+	return prototext.MarshalOptions{Multiline: false}.Format(sr), w
+}
+
+func runCli(ctx context.Context, bin, dir, addr string, idx int, s CliSpec, style string, files map[string]string, protos map[string]int, wire map[string]WireReq) CliObs {
+	enc := ""
+	if i := strings.Index(style, ":"); i >= 0 {
+		style, enc = style[:i], style[i+1:]
+	}
+	o := CliObs{Style: style, Spec: idx, Enc: enc}
 	args := []string{"-logtostderr", "-a", addr, "-tls_skip_verify", "-timeout", "5s"}
 	q := "/" + strings.Join(s.Query, "/")
 	switch style {
@@ -592,14 +631,16 @@ func runCli(ctx context.Context, bin, dir, addr string, idx int, s CliSpec, styl
 		o.Args = CliArgs{Target: s.Target, Queries: []string{q}, QType: "once"}
 		args = append(args, "-target", s.Target, "-query", q, "-display_type", "group")
 	case "proto":
-		txt := protoText(s)
+		txt, w := protoText(s, enc)
 		protos[txt] = idx
+		wire[txt] = w
 		o.Args = CliArgs{Proto: txt, QType: "once"}
 		args = append(args, "-proto", txt)
 	case "file":
-		txt := protoText(s)
+		txt, w := protoText(s, enc)
 		protos[txt] = idx
-		fn := filepath.Join(dir, fmt.Sprintf("req_%d.txt", idx))
+		wire[txt] = w
+		fn := filepath.Join(dir, fmt.Sprintf("req_%d%s.txt", idx, strings.ReplaceAll(enc, "-", "_")))
 		if err := os.WriteFile(fn, []byte(txt), 0o644); err != nil {
 			o.Note = err.Error()
 			return o
@@ -632,12 +673,19 @@ func runCli(ctx context.Context, bin, dir, addr string, idx int, s CliSpec, styl
 }
 
 // cliStyles: the three invocation styles, plus for the first query the
-// flags style relying on the default query type.
-func cliStyles(i int) []string {
+// flags style relying on the default query type; for a query that names at
+// least one element, both proto styles once more per request encoding.
+func cliStyles(i int, s CliSpec) []string {
+	st := []string{"flags", "proto", "file"}
 	if i == 0 {
-		return []string{"flags", "proto", "file", "flags-default"}
+		st = append(st, "flags-default")
 	}
-	return []string{"flags", "proto", "file"}
+	if len(s.Query) > 0 {
+		for _, e := range reqEncodings {
+			st = append(st, "proto:"+e, "file:"+e)
+		}
+	}
+	return st
 }
 
 func lastLine(s string) string {
@@ -683,7 +731,7 @@ func runScenario(e *env, id int, c *Case) (obs *Obs, herr error) {
 	}
 	ctx, cancel := context.WithCancel(context.Background())
 	defer cancel()
-	obs = &Obs{Files: map[string]string{}, Protos: map[string]int{}}
+	obs = &Obs{Files: map[string]string{}, Protos: map[string]int{}, Wire: map[string]WireReq{}}
 
 	// target streams
 	names := []string{}
@@ -842,8 +890,8 @@ func runScenario(e *env, id int, c *Case) (obs *Obs, herr error) {
 			obs.Clients = append(obs.Clients, ViewObs{Kind: "down"})
 		}
 		for i, s := range c.Cli {
-			for _, st := range cliStyles(i) {
-				obs.Cli = append(obs.Cli, runCli(ctx, e.cliBin, dir, addr, i, s, st, obs.Files, obs.Protos))
+			for _, st := range cliStyles(i, s) {
+				obs.Cli = append(obs.Cli, runCli(ctx, e.cliBin, dir, addr, i, s, st, obs.Files, obs.Protos, obs.Wire))
 			}
 		}
 		collect()
@@ -962,8 +1010,8 @@ func runScenario(e *env, id int, c *Case) (obs *Obs, herr error) {
 
 	// gnmi_cli, three styles per query
 	for i, s := range c.Cli {
-		for _, st := range cliStyles(i) {
-			obs.Cli = append(obs.Cli, runCli(ctx, e.cliBin, dir, addr, i, s, st, obs.Files, obs.Protos))
+		for _, st := range cliStyles(i, s) {
+			obs.Cli = append(obs.Cli, runCli(ctx, e.cliBin, dir, addr, i, s, st, obs.Files, obs.Protos, obs.Wire))
 		}
 	}
 	for _, lc := range clients {
